@@ -15,6 +15,11 @@ for d in sorted((V / "seeded").iterdir()):
     first = ev[0] if ev else {}
     if ev and first.get("exit") == 0 and last.get("detected"):
         status = "detected after strengthening (first run missed)"
+    note = m.get("status_note", "")
+    if note.startswith("OUT OF DOMAIN"):
+        status = "out of the property's domain (see meta.json)"
+    elif note.startswith("OBSOLETE"):
+        status = "obsolete after a repair (see meta.json)"
     clauses = ", ".join(c.split(".", 1)[-1] for c in last.get("clauses", [])[:4])
     rows.append(f"| {d.name} | {m.get('summary', '')[:150].replace('|', '/')} | {m.get('needs', '')[:120].replace('|', '/')} | {status} | {clauses} |")
 print("| Seed | Change | Needs | Result (quick tier) | Clauses that fired |")
